@@ -118,6 +118,30 @@ NOTES = {
     "C18-i": "first miss: one backup name per history -> `named_backups_check`: two names, edits and restores in every order through one manager object and through fresh ones",
     "C18-j": "first miss: no path component began with a dot -> `.sourcedata/...`, `.pilot_events.tsv` next to `pilot_events.tsv`",
     "C20-j": "first miss: one value per value-taking definition -> `Def/B/x` and `Def/B/y` Onset / Offset items",
+    # sixth wave (p = strengthened from the sub-agent's report before the first matrix run, so counted as a first miss)
+    "C01-k": "first miss: character faults only in values with a value class -> value-taking tags whose `#` declares no class (`Keyboard-key/a$b`)",
+    "C01-l": "first miss: valid numeric values had no exponent -> `1E3`, `2.5E-2`, `1e3` on every numericClass tag",
+    "C02-l": "first miss (p): the original form was printed through `get_as_form('org_tag')` only -> `get_as_original()` as a fifth printed form",
+    "C03-k": "first miss (p): no empty value -> VALUES `/` (a slash and nothing after it)",
+    "C03-l": "first miss (p): values had slashes only in the middle -> `/data/raw/`, `//x`",
+    "C04-l": "first miss: copies sat at top level or in a group with a sibling -> `double` wrapping `((G, G, ...))`",
+    "C05-k": "first miss: refusal checked for differently named libraries only -> `testlib_2.0.0,testlib_3.0.0` (either order), a prefixed merge, the unmerged savers",
+    "C05-l": "first miss: one locale -> `locale_check`: file saves of a schema with non-ASCII descriptions in child interpreters under `LC_ALL=C` (UTF-8 mode off) and UTF-8 mode",
+    "C06-k": "first miss (p): frames had object columns -> the frame with missing cells once more with categorical columns",
+    "C06-l": "first miss (p): a sidecar was one document -> `sidecar_list_check`: lists of two / three files against `{**first, **second}`",
+    "C08-k": "first miss (p): definition columns had one definition per entry -> entries with 2 / 1 / 3 definitions",
+    "C08-l": "first miss (p): value columns without `#` held no reference -> `({kind}, Label/Fixed)` naming a column nobody else references",
+    "C09-l": "first miss (p): bulk cells spelled `Def` canonically -> `def/`, `DEF/`, `dEf/`, `def-expand/` cells",
+    "C10-l": "first miss (p): a delayed marker occurred once per row -> the same delayed marker twice in one row (identical / other letter case)",
+    "C12-l": "first miss: sort labels were distinct after case folding -> files `Sub-01.tsv` / `sub-01.tsv`, columns `Cue` / `cue`: groups stay contiguous",
+    "C15-l": "first miss: `||` was judged at top level and in chains -> `(a || b) && c` against `(b || a) && c` with negations, on annotations with two groups",
+    "C16-k": "first miss: root sidecars had shorter paths than deeper ones -> task label `Adiscriminationlong`",
+    "C17-l": "first miss: destination values were plain words -> `don't respond`, `\"hold\"`",
+    "C18-k": "first miss: every edit changed the file's length and time -> `modify-keep` (same length, modification time put back)",
+    "C18-l": "first miss: remodel always ran on all tasks -> `remodel -t go` (the restore step goes by `task_go`; the run finds no `task-go` file)",
+    "C19-k": "first miss: one refresh per process -> H9: histories of up to three refreshes with the cached file left / torn / replaced / deleted in between",
+    "C19-l": "first miss: both lock holders were of one kind -> H4m: a holder that records the refresh time beside one that does not",
+    "C20-l": "first miss: observers were only compared with fresh managers -> every item of a context must occur in the start list of an earlier entry; a file with type tags inside groups with other content",
     "C19-h": "first miss: at most two refresh attempts per directory -> every history of <= 4 gaps from {1 s, T-1, T, 2T} against a one-number model",
 }
 
